@@ -259,6 +259,7 @@ def symbolic_comp(it, n, g, src, fr, kind):
                 it.ctx.assume(t)
         return it.eval(n.elt, f2)
     out = SymList(tag, length, elem, origin=('comp', src, n, fr, pos))
+    it.ctx.notes.setdefault('comps', []).append(out)
     return out
 
 
